@@ -149,13 +149,19 @@ func Consume[T any](env Env, name string, ch chan T, delays []int64, st *Stream[
 				}
 			}
 			i++
-			v, ok := Recv(env, ch)
-			if !ok {
+			// receive and record before the next scheduling point, so that the record is in channel order
+			h := env.Pre()
+			v, ok := <-ch
+			if ok {
+				st.add(v)
+			} else {
 				st.setClosed()
+			}
+			env.Post(h)
+			if !ok {
 				env.Event("consumer-closed", name)
 				break
 			}
-			st.add(v)
 			env.Event("consumer-recv", name)
 		}
 		Close(env, done)
